@@ -676,18 +676,23 @@ func (w *World) step(op Op) *Violation {
 				referenced[b.blk.Offset] = true
 			}
 		}
+		// A relocation is recognised by its effect on the index alone (the
+		// entry of a present key now names another location that holds the
+		// same record), never by what the collector put on the freelist: the
+		// ledger's expectation must not depend on the behaviour it checks.
 		counted := map[types.Position]bool{}
-		for _, name := range w.allNames() {
-			b, a := before[name], after[name]
-			if a.blk == b.blk && a.found == b.found {
+		for _, k := range w.Keys {
+			if _, present := w.Model[string(k.Digest)]; !present {
 				continue
 			}
-			if b.found && moved[b.blk.Offset] && !counted[b.blk.Offset] {
-				counted[b.blk.Offset] = true
-				w.relocs++
-				if w.ledger != nil {
-					w.ledger.superseded(b.blk, fmt.Sprintf("relocation of the record %s resolved to, by op %d", name, len(w.Trace)-1))
-				}
+			b, a := before[k.Name], after[k.Name]
+			if !b.found || !a.found || a.blk == b.blk || a.content != b.content || counted[b.blk.Offset] {
+				continue
+			}
+			counted[b.blk.Offset] = true
+			w.relocs++
+			if w.ledger != nil {
+				w.ledger.superseded(b.blk, fmt.Sprintf("relocation of %s by op %d", k.Name, len(w.Trace)-1))
 			}
 		}
 		// R1: the cycle relocated a record that no index entry referenced
